@@ -225,11 +225,23 @@ func C08(c *Case) *Result {
 		panicked any
 		reads    int
 		stuckNil bool
+		// bytes the source delivered after the failed call (the reader went on reading)
+		moreAfterFault int
 	}
+	// the source delivers whole reads, or pieces whose size is not a multiple of 8 (pipes): the
+	// input bitstream then tops a refill up with further reads, each of which may be the failing one
+	chunk := 0
+	if t.Intn(3) == 0 {
+		chunk = max(1+t.Intn(2000), len(stream)/40+1)
+		res.Probes["reader.short.reads"]++
+	}
+	res.Render["source_chunk"] = chunk
 	run := func(k int, kind int, retries int, forceLowest bool) readerRun {
 		var rr readerRun
 		stuck := false
 		total := 0
+		var srcRef *sim.SimSource
+		posAtFault := -1
 		hooks := sim.Hooks{OnIO: func(s *sim.Sched, ti *sim.TaskInfo, obj, op string, kk, n int) sim.IOAction {
 			if op != "read" {
 				return sim.IOAction{}
@@ -240,9 +252,15 @@ func C08(c *Case) *Result {
 				return sim.IOAction{Kind: sim.IOErr, Err: &sim.InjectedError{What: "source stays failed"}}
 			}
 			if idx != k {
+				if chunk > 0 && n > chunk {
+					return sim.IOAction{N: chunk}
+				}
 				return sim.IOAction{}
 			}
 			rr.fired = true
+			if srcRef != nil {
+				posAtFault = srcRef.Pos
+			}
 			if ti.Idx != 0 {
 				s.Probe("src.fault.inside.block.task")
 			}
@@ -273,6 +291,7 @@ func C08(c *Case) *Result {
 				}
 			}()
 			src := sim.NewSimSource(env.S, "in", stream)
+			srcRef = src
 			var rd interface {
 				Read([]byte) (int, error)
 				Close() error
@@ -323,6 +342,10 @@ func C08(c *Case) *Result {
 			}
 		})
 		rr.reads = total
+		if srcRef != nil && posAtFault >= 0 && kind == 0 {
+			// (the other kinds leave the source failed: nothing can be obtained after them)
+			rr.moreAfterFault = srcRef.Pos - posAtFault
+		}
 		res.absorb(s)
 		return rr
 	}
@@ -363,6 +386,15 @@ func C08(c *Case) *Result {
 		}
 		if rr.eof && len(rr.data) != len(data) {
 			return res.fail("error-turned-into-eof", "%s: end of stream reported after %d of %d bytes: a source error became a clean end of stream", ctx, len(rr.data), len(data))
+		}
+		if rr.eof && len(rr.results) == 1 {
+			// no call reported the failure. Tolerated only when the failed call was made after the last
+			// byte of the stream had been obtained (a read-ahead whose result was never needed): if the
+			// reader went on and obtained more bytes from the source, it recovered silently
+			if rr.moreAfterFault > 0 {
+				return res.fail("error-swallowed", "%s: the reader obtained %d more bytes from the source after the failed call, read the stream to its end and no call reported the failure", ctx, rr.moreAfterFault)
+			}
+			res.Probes["fault.after.last.needed.byte"]++
 		}
 		if rr.eof {
 			res.Probes["fault.survived.complete.data"]++
